@@ -3,6 +3,8 @@
 package ngapTestpacket
 
 import (
+	"net"
+
 	"free5gclib/ngap/ngapType"
 
 	"vspec/vc"
@@ -81,4 +83,22 @@ func vcUECtxRelCplIDs(pdu ngapType.NGAPPDU) []int64 {
 		r = append(r, ie.Id.Value, int64(ie.Criticality.Value))
 	}
 	return r
+}
+
+// vcIsSetupTransfer: v is a PDUSessionResourceSetupResponseTransfer with a GTP tunnel at the IPv4
+// address ip (32 bits), TEID 00000001 and one associated QoS flow with identifier 1.
+func vcIsSetupTransfer(v interface{}, ip string) bool {
+	d, ok := v.(ngapType.PDUSessionResourceSetupResponseTransfer)
+	if !ok {
+		return false
+	}
+	t := d.QosFlowPerTNLInformation.UPTransportLayerInformation
+	if t.Present != 1 || t.GTPTunnel == nil {
+		return false
+	}
+	return vcSame(t.GTPTunnel.GTPTEID.Value, []byte{0, 0, 0, 1}) &&
+		t.GTPTunnel.TransportLayerAddress.Value.BitLength == 32 &&
+		vcSame(t.GTPTunnel.TransportLayerAddress.Value.Bytes, net.ParseIP(ip).To4()) &&
+		len(d.QosFlowPerTNLInformation.AssociatedQosFlowList.List) == 1 &&
+		d.QosFlowPerTNLInformation.AssociatedQosFlowList.List[0].QosFlowIdentifier.Value == 1
 }
